@@ -1,7 +1,7 @@
 (* C11_hb for the model instance built from the generated memory orders. *)
 From Coq Require Import List NArith Bool Arith Lia.
 Import ListNotations.
-From FV Require Import Qs.QsTypes Qs.QsModel Qs.QsFgModel Qs.QsGenOk Qs.QsWoProofs Qs.QsFgProofs Qs.QsFgThms Qs.QsFgGen Qs.QsHbProofs.
+From FV Require Import Qs.QsTypes Qs.QsModel Qs.QsFgModel Qs.QsGenOk Qs.QsWoProofs Qs.QsFgProofs Qs.QsFgThms Qs.QsFgGen Qs.QsHbProofs Qs.QsHbBarrier.
 Local Open Scope N_scope.
 
 Lemma gen_h_step_eq t h : gen_h_step t h = hstep gen_ord gen_ord_fail t h.
@@ -34,6 +34,16 @@ Proof.
   intros Hrun Hs Hin. rewrite gen_h_run_eq in Hrun. rewrite gen_h_step_eq in Hs.
   pose proof (hrun_all gen_ord gen_ord_fail gen_orders_sufficient_true U nown ND HB sched (h0 scripts) [] h tr hall_init Hrun) as HA.
   apply (hb_callback gen_ord gen_ord_fail gen_orders_sufficient_true U nown t h h' evs n t' HA Hs Hin).
+Qed.
+
+Lemma gen_hb_barrier sched h tr t h' evs t' :
+  gen_h_run sched (h0 scripts) [] = (h, tr) -> gen_h_step t h = (h', evs) -> In (WQbRet t') evs ->
+  forall X kx, hleftq h t' X = Some kx -> (kx <= vc (hk h') t' X)%nat.
+Proof.
+  intros Hrun Hs Hin. rewrite gen_h_run_eq in Hrun. rewrite gen_h_step_eq in Hs.
+  pose proof (hrun_allq gen_ord gen_ord_fail gen_orders_sufficient_true U nown ND HB sched (h0 scripts) [] h tr
+                (hallq_init U nown scripts Hok) Hrun) as HA.
+  apply (hb_barrier_return gen_ord gen_ord_fail gen_orders_sufficient_true U nown t h h' evs t' HA Hs Hin).
 Qed.
 
 End Gen.
